@@ -492,6 +492,172 @@ pub fn part_b(depth: usize, deadline: Instant) -> PartB {
     out
 }
 
+// ------------------------------------------------------------------------------------------------
+// (c) crash enumeration at store level (used by C04): for every distinct state the BFS reaches, every
+// victim operation (commit, rollback by 1 / 2 blocks) is crashed in front of each of its persistent
+// writes; the tables are reopened and rolled back to every eligible block; the result must be the
+// reference map truncated at that block.
+
+#[derive(Default, serde::Serialize, serde::Deserialize)]
+pub struct PartCrash {
+    pub states: u64,
+    pub depth: usize,
+    pub victims: u64,
+    pub crash_points: u64,
+    pub cases: u64,
+    pub complete: bool,
+    pub violation: Option<(String, Value)>,
+    pub errors: Vec<String>,
+}
+
+impl DSys {
+    /// Run `victim` with a crash in front of its persistent write number `i`; reopen; roll back to `r`;
+    /// compare with the model truncated at `r`. Ok(false): the failpoint did not fire (i >= writes).
+    fn crash_case(&mut self, path: &[DOp], victim: &DOp, i: u64, r: u64) -> Result<bool, String> {
+        use brc20_prog::verif as v;
+        self.wipe();
+        for op in path {
+            if !self.apply(op).map_err(|e| format!("prefix: {}", e))? {
+                return Err("prefix not applicable".into());
+            }
+        }
+        let pre = self.model.clone();
+        v::fp_reset(i, false);
+        let res = catch_unwind(AssertUnwindSafe(|| self.apply(victim)));
+        v::fp_reset(u64::MAX, false);
+        // (the rollback operation catches the panic itself and reports it as an error)
+        if matches!(res, Ok(Ok(_))) {
+            return Ok(false);
+        }
+        // the process dies: everything in memory is gone
+        self.cdb = None;
+        self.bdb = None;
+        let (c, b) = DSys::open(&self.dir);
+        self.cdb = Some(c);
+        self.bdb = Some(b);
+        let rec = catch_unwind(AssertUnwindSafe(|| {
+            let c = self.cdb.as_mut().unwrap().reorg(r).map_err(|e| e.to_string());
+            let b1 = self.bdb.as_mut().unwrap().reorg(r).map_err(|e| e.to_string());
+            let b2 = self.bdb.as_mut().unwrap().commit().map_err(|e| e.to_string());
+            self.bdb.as_mut().unwrap().clear_cache();
+            c.and(b1).and(b2)
+        }));
+        match rec {
+            Ok(Ok(())) => {}
+            Ok(Err(e)) => return Err(format!("recovery rollback to {} failed: {}", r, e)),
+            Err(p) => return Err(format!("recovery rollback to {} panicked: {}", r, panic_text(&p))),
+        }
+        let mut m = pre;
+        for h in m.hist.values_mut() {
+            h.retain(|(b, _)| *b <= r);
+        }
+        m.blocks.retain(|b, _| *b <= r);
+        m.cur = r;
+        self.model = m.clone();
+        self.committed = m;
+        self.check().map(|_| true)
+    }
+}
+
+pub fn part_crash(depth: usize, shard: u64, nshards: u64, deadline: Instant) -> PartCrash {
+    use brc20_prog::verif as v;
+    let mut out = PartCrash { complete: true, ..Default::default() };
+    // W + 1 blocks at once: a key's next write then finds its previous version older than the window
+    let ops = vec![DOp::Set(10, 1), DOp::Set(10, 2), DOp::Unset(10), DOp::Set(20, 1), DOp::Next, DOp::Skip, DOp::Commit, DOp::Reorg(1)];
+    let victims = [DOp::Commit, DOp::Reorg(1), DOp::Reorg(2)];
+    let mut sys = DSys::new();
+    let mut seen: HashSet<u128> = HashSet::new();
+    let mut frontier: Vec<Vec<DOp>> = vec![vec![]];
+    // seeds: a key rewritten more than W blocks after its previous version, committed / uncommitted
+    frontier.push(vec![DOp::Set(10, 1), DOp::Next, DOp::Commit, DOp::Skip, DOp::Next, DOp::Next, DOp::Set(10, 2), DOp::Next]);
+    frontier.push(vec![DOp::Set(10, 1), DOp::Next, DOp::Commit, DOp::Skip, DOp::Next, DOp::Next, DOp::Set(10, 2), DOp::Next, DOp::Commit]);
+    frontier.push(vec![DOp::Set(10, 1), DOp::Set(20, 1), DOp::Next, DOp::Skip, DOp::Next, DOp::Next, DOp::Unset(10), DOp::Next, DOp::Commit]);
+    let mut idx = 0u64;
+    for d in 0..=depth {
+        let mut next: Vec<Vec<DOp>> = Vec::new();
+        for path in &frontier {
+            sys.wipe();
+            let mut ok = true;
+            for op in path.iter() {
+                match sys.apply(op) {
+                    Ok(true) => {}
+                    _ => {
+                        ok = false;
+                        break;
+                    }
+                }
+            }
+            if !ok || !seen.insert(sys.fingerprint()) {
+                continue;
+            }
+            idx += 1;
+            let committed = sys.committed.cur;
+            let (cur, max_ever) = (sys.model.cur, sys.model.max_ever);
+            if idx % nshards == shard {
+                for victim in &victims {
+                    // count the victim's persistent writes
+                    sys.wipe();
+                    for op in path.iter() {
+                        let _ = sys.apply(op);
+                    }
+                    v::fp_reset(u64::MAX, false);
+                    let applicable = matches!(sys.apply(victim), Ok(true));
+                    let n = v::fp_count();
+                    if !applicable || n == 0 {
+                        continue;
+                    }
+                    out.victims += 1;
+                    // eligible rollback targets: committed before the crash, not above the victim's own target,
+                    // within W of the highest block the tables were told about
+                    let upper = match victim {
+                        DOp::Reorg(j) => committed.min(cur.saturating_sub(*j)),
+                        _ => committed,
+                    };
+                    let mut rs: Vec<u64> = vec![upper];
+                    if upper > 0 {
+                        rs.push(upper - 1);
+                    }
+                    rs.push(max_ever.saturating_sub(W));
+                    rs.retain(|r| *r <= upper && max_ever - *r <= W);
+                    rs.sort();
+                    rs.dedup();
+                    for i in 0..n {
+                        out.crash_points += 1;
+                        for r in &rs {
+                            out.cases += 1;
+                            match sys.crash_case(path, victim, i, *r) {
+                                Ok(true) => {}
+                                Ok(false) => out.errors.push(format!("failpoint {} of {} did not fire: {:?} + {:?}", i, n, path, victim)),
+                                Err(e) => {
+                                    out.violation = Some((format!("store level: crash before write #{} of {} of {:?}, reopened, rolled back to block {}: {}", i, n, victim, r, e), json!({"component": "BlockCachedDatabase / BlockDatabase", "ops": format!("{:?}", path), "victim": format!("{:?}", victim), "crash_before_write": i, "rollback_to": r})));
+                                    out.states = seen.len() as u64;
+                                    return out;
+                                }
+                            }
+                        }
+                        if Instant::now() > deadline {
+                            out.complete = false;
+                            out.states = seen.len() as u64;
+                            return out;
+                        }
+                    }
+                }
+            }
+            if d < depth {
+                for op in &ops {
+                    let mut p = path.clone();
+                    p.push(op.clone());
+                    next.push(p);
+                }
+            }
+        }
+        out.depth = d;
+        out.states = seen.len() as u64;
+        frontier = next;
+    }
+    out
+}
+
 pub fn run(tier: &str, seed: u64) -> i32 {
     let t0 = Instant::now();
     let thorough = tier == "thorough";
